@@ -415,21 +415,47 @@ int __wrap_pthread_mutex_unlock(pthread_mutex_t* m) {
     }
 
 ATOMIC_WRAP_LOAD(8, unsigned char)
-ATOMIC_WRAP_LOAD(32, unsigned int)
-ATOMIC_WRAP_LOAD(64, unsigned long)
 ATOMIC_WRAP_STORE(8, unsigned char)
-ATOMIC_WRAP_STORE(32, unsigned int)
-ATOMIC_WRAP_STORE(64, unsigned long)
 ATOMIC_WRAP_RMW(8, unsigned char, exchange)
-ATOMIC_WRAP_RMW(32, unsigned int, exchange)
-ATOMIC_WRAP_RMW(64, unsigned long, exchange)
-ATOMIC_WRAP_RMW(8, unsigned char, fetch_or)
+ATOMIC_WRAP_RMW(8, unsigned char, fetch_add)
+ATOMIC_WRAP_RMW(8, unsigned char, fetch_sub)
 ATOMIC_WRAP_RMW(8, unsigned char, fetch_and)
-ATOMIC_WRAP_RMW(32, unsigned int, fetch_add)
-ATOMIC_WRAP_RMW(32, unsigned int, fetch_sub)
-ATOMIC_WRAP_RMW(64, unsigned long, fetch_add)
+ATOMIC_WRAP_RMW(8, unsigned char, fetch_or)
+ATOMIC_WRAP_RMW(8, unsigned char, fetch_xor)
+ATOMIC_WRAP_RMW(8, unsigned char, fetch_nand)
 ATOMIC_WRAP_CAS(8, unsigned char, strong)
 ATOMIC_WRAP_CAS(8, unsigned char, weak)
+ATOMIC_WRAP_LOAD(16, unsigned short)
+ATOMIC_WRAP_STORE(16, unsigned short)
+ATOMIC_WRAP_RMW(16, unsigned short, exchange)
+ATOMIC_WRAP_RMW(16, unsigned short, fetch_add)
+ATOMIC_WRAP_RMW(16, unsigned short, fetch_sub)
+ATOMIC_WRAP_RMW(16, unsigned short, fetch_and)
+ATOMIC_WRAP_RMW(16, unsigned short, fetch_or)
+ATOMIC_WRAP_RMW(16, unsigned short, fetch_xor)
+ATOMIC_WRAP_RMW(16, unsigned short, fetch_nand)
+ATOMIC_WRAP_CAS(16, unsigned short, strong)
+ATOMIC_WRAP_CAS(16, unsigned short, weak)
+ATOMIC_WRAP_LOAD(32, unsigned int)
+ATOMIC_WRAP_STORE(32, unsigned int)
+ATOMIC_WRAP_RMW(32, unsigned int, exchange)
+ATOMIC_WRAP_RMW(32, unsigned int, fetch_add)
+ATOMIC_WRAP_RMW(32, unsigned int, fetch_sub)
+ATOMIC_WRAP_RMW(32, unsigned int, fetch_and)
+ATOMIC_WRAP_RMW(32, unsigned int, fetch_or)
+ATOMIC_WRAP_RMW(32, unsigned int, fetch_xor)
+ATOMIC_WRAP_RMW(32, unsigned int, fetch_nand)
 ATOMIC_WRAP_CAS(32, unsigned int, strong)
 ATOMIC_WRAP_CAS(32, unsigned int, weak)
+ATOMIC_WRAP_LOAD(64, unsigned long)
+ATOMIC_WRAP_STORE(64, unsigned long)
+ATOMIC_WRAP_RMW(64, unsigned long, exchange)
+ATOMIC_WRAP_RMW(64, unsigned long, fetch_add)
+ATOMIC_WRAP_RMW(64, unsigned long, fetch_sub)
+ATOMIC_WRAP_RMW(64, unsigned long, fetch_and)
+ATOMIC_WRAP_RMW(64, unsigned long, fetch_or)
+ATOMIC_WRAP_RMW(64, unsigned long, fetch_xor)
+ATOMIC_WRAP_RMW(64, unsigned long, fetch_nand)
+ATOMIC_WRAP_CAS(64, unsigned long, strong)
+ATOMIC_WRAP_CAS(64, unsigned long, weak)
 }
